@@ -106,11 +106,35 @@ def run(ctx):
                    f'RaggedArray.copy forwards `{nm}` verbatim to asraggedarray', detail=f'{nm}={norm(a) if a is not None else "<absent>"}')
     a = get_arg(c, None, 'dtype')
     dd = defs_of(g.node, 'dtype')
-    ok = isinstance(a, ast.Name) and a.id == 'dtype' and all(
-        norm(v) in ('self.dtype', 'self._values.dtype') and any(isinstance(p, ast.If) and norm(p.test) == 'dtype is None'
-                                                                 for p, _ in enclosing(g.node, st)) for v, st in dd)
+    # the default is applied exactly when dtype is None (path conditions) and is the source dtype; it precedes
+    # every creation call that receives dtype — the empty-source sibling (create_raggedarray) included
+    from .C20 import fold as _fold
+
+    def _dflt(v):
+        e = v
+        while isinstance(e, ast.IfExp):
+            try:
+                e = e.body if _fold(e.test, {'dtype': None}) else e.orelse
+            except Exception:
+                return None
+        return norm(e)
+    ok = isinstance(a, ast.Name) and a.id == 'dtype' and bool(dd) and all(
+        _dflt(v) in ('self.dtype', 'self._values.dtype') and
+        runs_under(g, st, _trunc.folder({'dtype': None}, g)) is not False and
+        (isinstance(v, ast.IfExp) or runs_under(g, st, _trunc.folder({'dtype': 'float32'}, g)) is False) for v, st in dd)
     ctx.decide(ok, 'R-FLOW', 'D2', g, c, 'ragged-copy-forward::dtype', 'RaggedArray.copy forwards dtype, defaulted to the source dtype only when None',
                detail='dtype not forwarded / defaulted differently')
+    crt = ctx.repo.func('raggedarray.create_raggedarray')
+    for n_, cal in ctx.E.callees(g):
+        if cal in (asragged, crt) and isinstance(n_, ast.Call):
+            a_ = get_arg(n_, None, 'dtype')
+            if isinstance(a_, ast.Name) and a_.id == 'dtype' and dd:
+                gg_ = cfg_of(g)
+                free_ = reach_under(g, _trunc.folder({'dtype': None}, g), avoid={gg_.node_for(st) for _, st in dd})
+                ctx.decide(gg_.node_for(n_) not in free_, 'R-ORDER', 'D2', g, n_, f'dtype-default-before::{cal.name}',
+                           f'RaggedArray.copy: the dtype default (source dtype) is applied before {cal.name} receives dtype',
+                           detail=f'{cal.name} can be reached with dtype still None: the copy silently gets the '
+                                  f'library default type instead of the source dtype')
     _fresh_metadata(ctx, g, c, 'D4')
     it = get_arg(c, None, 'arrayiterable')
     src = None
@@ -172,6 +196,8 @@ def run(ctx):
     ctx.decide(ok, 'R-DOM', 'D4', asarray, gates[0] if gates else None, 'same-path-rejected',
                'asarray rejects path == source path (ValueError) before any effect', detail='a source could be overwritten by its own copy')
     d6_archive_copy(ctx)           # D5
+    from .C13 import d2b_stale_metadata
+    d2b_stale_metadata(ctx, 'D4')   # a copy without metadata does not inherit the target path's old metadata.json
     # the dtype imposed on later chunks keeps the byte order (shared with C01 D2)
     dd = [v for v, st in defs_of(asarray.node, 'dtype')]
     ok = any(isinstance(v, ast.Attribute) and v.attr == 'dtype' for v in dd) and \
